@@ -1625,6 +1625,14 @@ class Interp:
                 return fractions.Fraction(*args) if name == 'Fraction' else decimal.Decimal(*args)
             except Exception as e:
                 raise AnalysisError('%s on constants fails: %r' % (name, e))
+        if name == 'iter' and len(args) == 1 and not kwargs and isinstance(args[0], (list, tuple)):
+            return list(args[0])                 # a fresh iterator over a concrete sequence: only its first element is ever taken (next)
+        if name == 'next' and len(args) in (1, 2) and not kwargs and isinstance(args[0], (list, tuple)):
+            if args[0]:
+                return args[0][0]
+            if len(args) == 2:
+                return args[1]
+            raise AnalysisError('next() on an empty constant sequence without default')
         if name == 'repr' and len(args) == 1 and not kwargs and isinstance(args[0], (int, float, str, bytes, bool)) :
             return repr(args[0])
         if name in ('min', 'max', 'abs', 'sum', 'sorted', 'ord', 'chr', 'pow', 'divmod', 'round', 'float', 'any', 'all', 'reversed', 'hex', 'bin', 'enumerate', 'zip') and all(is_conc(a) for a in args) and not kwargs and args:
